@@ -6,4 +6,5 @@ INVARIANT BidCyclic
 INVARIANT LookupInTable
 INVARIANT MaskCovers
 INVARIANT LayoutValidForTn
+INVARIANT ChanNrTasks
 CHECK_DEADLOCK FALSE
